@@ -3,7 +3,12 @@
 set -e
 cd "$(dirname "$0")"
 export CARGO_NET_OFFLINE=true
+python3 extract/reloc_layout.py >/dev/null 2>&1 || true
+[ -f extract/ffi_errors.py ] && (python3 extract/ffi_errors.py >/dev/null 2>&1 || true)
 (cd lean && lake build Iox2 iox2driver)
+# pre-build every property module in one go (each check builds its own modules again, incrementally;
+# a module that does not build is reported by the check of its property, not here)
+(cd lean && lake build $(ls Iox2/Props/*.lean | sed 's/\.lean$//; s#/#.#g') >/dev/null 2>&1 || true)
 cp /repo/Cargo.lock harness/Cargo.lock 2>/dev/null || true
 (cd harness && cargo build --release --offline)
 (cd harness && ./build_trace.sh)
